@@ -60,6 +60,15 @@ func TestMain(m *testing.M) {
 			"in both directions, Identity.ConfigForPeer under plain crypto/tls the way QUIC / WebTransport use it (dialer config for the named peer, listener config "+
 			"per connection), the QUIC transport's Dial in its three roles and the swarm's DialPeer over the real upgrader; oracle: a side that named a non-empty ID "+
 			"completes only if the genuine remote ID is byte-identical to it (label named-wrong:<path>/<direction>/<not-a-multihash|well-formed-multihash>). "+
+			"S: forged identity proofs over signature ENCODINGS: the Noise payload / TLS certificate extension names the victim's public key and carries a signature over the "+
+			"CORRECT message (right prefix, right static key / certificate key) made with a key that is NOT the named key (another key of the same type, weighted 4x, or a key of "+
+			"another type), in the signer type's usual encoding or an alternative one -- Secp256k1: 65-byte compact/recoverable (both compressed flags, the 7 other recovery "+
+			"headers), raw r||s, DER + 1-3 trailing bytes, BER long-form length, high S; ECDSA: raw r||s (IEEE P1363), DER + trailing bytes, BER long-form length, high S; "+
+			"Ed25519: S + j*L (non-canonical scalar), 1-3 appended bytes, Ed25519ph, Ed25519ctx; RSA: PSS (salt = hash length / maximal), PKCS#1 v1.5 over SHA-512, without DigestInfo, "+
+			"zero-prefixed, with appended bytes -- each first confirmed by a reference verifier (standard library / dcrd) to be a genuine signature by the signer in that form; presented to "+
+			"the Noise and TLS transports in either role, to Identity.ConfigForPeer under plain crypto/tls (QUIC's use) and to PubKeyFromCertChain, with expected peer = victim / empty / "+
+			"check disabled; oracle: whatever completes reports the SIGNER's identity, never the named one (labels forged-sig:*, forged-sig-named:<named type><-<signer type>/<form>); "+
+			"1 case in 6 signs with the named key itself in the same forms: not judged, outcome recorded only (same-key-other-encoding:*). "+
 			"A case is NON-TRIVIAL when a mismatch / edit / substitution is actually present (not the honest "+
 			"baseline, and the edit hit and changed a frame); two cases are DISTINCT when (scenario, protocol, key types, role, settings, operator, "+
 			"frame, position) differ.",
